@@ -1272,6 +1272,8 @@ def run(rep):
             o['rule'] = 'R01s'
     rep.nontrivial = {(('R01s' if r == 'R04j' else r), fn_, role) for (r, fn_, role) in rep.nontrivial}
     rep.broken = [b.replace('R04j', 'R01s') for b in rep.broken]
+    # R01v: what a planner registers is what the problem definition reports (C04's R04n under C01's id)
+    c04.r04n(rep, F, rule='R01v')
     from rules import c01_informed
     c01_informed.r01p(rep, F)
     c01_informed.r01q(rep, F)
